@@ -154,8 +154,10 @@ func buildWorld() *world {
 	return w
 }
 
-// open returns a fresh StateDB at the world root. If code != nil it is installed at aSelf and finalised
-// into the pre-state (so that no journal entry of the set-up can be reverted by the run).
+// open returns a fresh StateDB at the world root. If code != nil it is installed at aSelf (the way
+// vm/runtime.Execute installs the code it runs). The pre-state root of such a StateDB is obtained from a
+// separate instance opened the same way (IntermediateRoot finalises, the instance that runs is not finalised
+// so that opening stays cheap; a revert that went too far would show up as a code difference to the twin).
 func (w *world) open(code []byte) *state.StateDB {
 	st, err := state.New(w.root, w.db)
 	if err != nil {
@@ -163,7 +165,6 @@ func (w *world) open(code []byte) *state.StateDB {
 	}
 	if code != nil {
 		st.SetCode(aSelf, code)
-		st.Finalise(false)
 	}
 	return st
 }
